@@ -179,13 +179,13 @@ def _shard(ctx, classes: tuple, n: int) -> None:
 
 
 def run(ctx) -> None:
-    n = ctx.n(200, 4000)
+    n = ctx.n(300, 4000)
     classes = S.BODY_CLASSES
     k = ctx.n(8, 16)
     shards = [(tuple(classes[i::k]), n) for i in range(k)]
     parallel(ctx, _shard, shards)
     # mixed-class pass in the parent (keeps collect-only; buckets already shrunk in shards)
-    hyp_collect(ctx, S.body_specs(), oracle, ctx.n(300, 5000), seed_salt=99)
+    hyp_collect(ctx, S.body_specs(), oracle, ctx.n(500, 5000), seed_salt=99)
     ctx.notes["body_classes"] = len(classes)
     missing = [c for c in classes if not any(key.split(":")[0] == c for key in ctx.classes)]
     if missing:
